@@ -150,7 +150,11 @@ def run(rep, tier):
     for v in val:
         okv |= set(le.result_edges(v)[0])
     some_edge = [m["Some"] for (sb, place, adt, m, els) in le.variant_edges() if adt == "core::option::Option" and "Some" in m and "validator" in le.slice_fields({"c": {"l": place.l}})]
+    none_edge = [m["None"] for (sb, place, adt, m, els) in le.variant_edges() if adt == "core::option::Option" and "None" in m and "validator" in le.slice_fields({"c": {"l": place.l}})]
     ok = bool(val) and bool(aggs) and bool(okv) and all(not (le.reachable_from([t], avoid=okv) & set(aggs)) for t in some_edge) and bool(some_edge)
+    # ... and on *every* path (a document served from the metadata cache included): the entry is built only after the policy's
+    # validator slot was consulted - its None edge (no validator configured) or the Ok edge of the validator call
+    ok = ok and le.must_pass(set(okv) | set(none_edge), aggs)
     rep.ob("R09.2", "validator-before-surface|listing_entry", ok, "when a validator is configured an entry is surfaced only on its Ok edge", le.file + ":%d" % le.line)
 
     # legacy acceptance: verify_metadata may answer `Legacy` (unauthenticated, pre-authentication layout) only when *every*
